@@ -5,3 +5,5 @@ FUNCTIONS = ['uxarray.grid.intersections.fast_constant_lat_intersections']
 STANDINS = ["subsets"]
 ASSUMPTIONS = []
 EXPLANATION = ""
+LEVEL_TEXT = 'fast_constant_lat_intersections proved (loop invariant): selected edges are exactly those whose end nodes lie strictly on opposite sides of the parallel, increasing, no duplicates; slicing/renumbering, boxes, circles, data alignment bounded (independent geometric oracle)'
+LEVEL_NOTE = 'prange treated as range (A-NUMBA): each iteration writes only its own mask cell; argwhere/unique models'
